@@ -108,7 +108,7 @@ func (nm *nilModel) nilableSource(v ssa.Value, seen map[ssa.Value]bool) bool {
 			if s := nonNilSucc(pred, e); s != nil && s == x.Block() {
 				continue
 			}
-			if knownNonNilIn(e, pred) {
+			if knownNonNilIn(e, pred) || nm.statusGuaranteesOnEdge(e, pred, x.Block()) {
 				continue
 			}
 			return true
@@ -222,6 +222,8 @@ func ruleTypedNil(c *Ctx) {
 			key := fmt.Sprintf("%s:%s %s#%d", fnName(fn), how, name, ord[name+how])
 			if knownNonNilIn(v, at.Block()) || sameBlockGuard(v, at) {
 				c.S.OK("R-typed-nil", key, c.Pos(c.InstrPos(at)), "dominated by a nil test on the accessor result")
+			} else if nm.statusGuarantees(v, at.Block()) {
+				c.S.OK("R-typed-nil", key, c.Pos(c.InstrPos(at)), "the lookup helper returns a non-nil aggregate whenever its status result has the value established on this path")
 			} else {
 				c.S.Bad("R-typed-nil", key, c.Pos(c.InstrPos(at)), fmt.Sprintf("%s dereferences a %s that comes from a typed accessor (nil when the key holds another type) without a dominating nil test: a wrong-typed key crashes the process", fnName(fn), name))
 			}
@@ -280,4 +282,195 @@ func sameBlockGuard(v ssa.Value, at ssa.Instruction) bool {
 		return true
 	}
 	return walk(blk)
+}
+
+// ---------------------------------------------------------------- (aggregate, status) lookup helpers
+
+type nnCond struct {
+	j int   // index of the status result
+	k int64 // its value (bool: 1 = true, 0 = false)
+}
+
+var nonNilWhenMemo = map[string][]nnCond{}
+var statusValuesMemo = map[string]map[int]uint32{} // helper#i -> result j -> set of constants it returns there
+
+func constStatus(v ssa.Value) (int64, bool) {
+	k, ok := v.(*ssa.Const)
+	if !ok || k.Value == nil {
+		return 0, false
+	}
+	switch k.Value.Kind().String() {
+	case "Bool":
+		if k.Value.String() == "true" {
+			return 1, true
+		}
+		return 0, true
+	case "Int":
+		return k.Int64(), true
+	}
+	return 0, false
+}
+
+// nonNilWhen: the conditions (result j == k) under which result i of g is certainly non-nil, judged over every return
+// of g (per incoming edge when the returned values are phis of the return block).
+func (nm *nilModel) nonNilWhen(g *ssa.Function, i int) []nnCond {
+	key := fmt.Sprintf("%s#%d", fnName(g), i)
+	if r, ok := nonNilWhenMemo[key]; ok {
+		return r
+	}
+	nonNilWhenMemo[key] = nil
+	res := g.Signature.Results()
+	type occ struct{ all bool }
+	seenOcc := map[nnCond]*occ{}
+	unusable := map[int]bool{}
+	for _, b := range g.Blocks {
+		ret, ok := b.Instrs[len(b.Instrs)-1].(*ssa.Return)
+		if !ok || i >= len(ret.Results) {
+			continue
+		}
+		// cases: one per predecessor edge if a returned value is a phi of this block
+		edges := []int{-1}
+		for _, r := range ret.Results {
+			if phi, ok := r.(*ssa.Phi); ok && phi.Block() == b {
+				edges = nil
+				for e := range b.Preds {
+					edges = append(edges, e)
+				}
+				break
+			}
+		}
+		for _, e := range edges {
+			at := b
+			val := func(v ssa.Value) ssa.Value {
+				if phi, ok := v.(*ssa.Phi); ok && phi.Block() == b && e >= 0 {
+					return phi.Edges[e]
+				}
+				return v
+			}
+			if e >= 0 {
+				at = b.Preds[e]
+			}
+			vi := val(ret.Results[i])
+			nonNil := !isNilConst(vi) && (!nm.nilableSource(vi, map[ssa.Value]bool{}) || knownNonNilIn(vi, at) || (e >= 0 && nonNilSucc(at, vi) == b))
+			for j := 0; j < res.Len(); j++ {
+				if j == i || j >= len(ret.Results) {
+					continue
+				}
+				bt, ok := res.At(j).Type().Underlying().(*types.Basic)
+				if !ok || bt.Info()&(types.IsInteger|types.IsBoolean) == 0 {
+					continue
+				}
+				k, isC := constStatus(val(ret.Results[j]))
+				if !isC {
+					unusable[j] = true
+					continue
+				}
+				c := nnCond{j, k}
+				if seenOcc[c] == nil {
+					seenOcc[c] = &occ{all: true}
+				}
+				if !nonNil {
+					seenOcc[c].all = false
+				}
+			}
+		}
+	}
+	var out []nnCond
+	vals := map[int]uint32{}
+	for c, o := range seenOcc {
+		if c.k >= 0 && c.k < 31 && !unusable[c.j] {
+			vals[c.j] |= 1 << uint32(c.k)
+		}
+		if o.all && !unusable[c.j] {
+			out = append(out, c)
+		}
+	}
+	statusValuesMemo[key] = vals
+	nonNilWhenMemo[key] = out
+	return out
+}
+
+// statusGuarantees: v is result i of a call to a lookup helper, and on every path to blk a branch has established a value
+// of another result of the same call under which the helper returns a non-nil aggregate.
+func (nm *nilModel) statusGuarantees(v ssa.Value, blk *ssa.BasicBlock) bool {
+	return nm.statusGuaranteesOnEdge(v, blk, nil)
+}
+
+// statusGuaranteesOnEdge: as statusGuarantees, additionally using the branch at the end of blk towards succ.
+func (nm *nilModel) statusGuaranteesOnEdge(v ssa.Value, blk *ssa.BasicBlock, succ *ssa.BasicBlock) bool {
+	ex, ok := v.(*ssa.Extract)
+	if !ok {
+		// a local cell holding the extract
+		if u, ok := v.(*ssa.UnOp); ok {
+			if al, ok := u.X.(*ssa.Alloc); ok {
+				for _, r := range referrers(al) {
+					if st, ok := r.(*ssa.Store); ok && st.Addr == ssa.Value(al) {
+						if ex2, ok := st.Val.(*ssa.Extract); ok {
+							ex = ex2
+						}
+					}
+				}
+			}
+		}
+		if ex == nil {
+			return false
+		}
+	}
+	call, ok := ex.Tuple.(*ssa.Call)
+	if !ok {
+		return false
+	}
+	g := call.Call.StaticCallee()
+	if g == nil || !nm.c.InPkg(g) {
+		return false
+	}
+	fn := blk.Parent()
+	for _, cnd := range nm.nonNilWhen(g, ex.Index) {
+		// the extract of result j
+		var vj ssa.Value
+		for _, r := range referrers(call) {
+			if e2, ok := r.(*ssa.Extract); ok && e2.Index == cnd.j {
+				vj = e2
+			}
+		}
+		if vj == nil {
+			continue
+		}
+		kind := "enum"
+		if b, ok := vj.Type().Underlying().(*types.Basic); ok && b.Kind() == types.Bool {
+			kind = "bool"
+		}
+		d := statusDomain{all: 0xff, kind: kind}
+		want := uint32(1) << uint32(cnd.k)
+		if kind == "bool" {
+			d.all = 3
+		} else if vs := statusValuesMemo[fmt.Sprintf("%s#%d", fnName(g), ex.Index)][cnd.j]; vs != 0 {
+			d.all = vs // the helper only ever returns these constants in that position
+		}
+		m := d.all
+		if succ != nil {
+			if ifi, ok := blk.Instrs[len(blk.Instrs)-1].(*ssa.If); ok {
+				for si, s2 := range blk.Succs {
+					if s2 == succ {
+						m = refineStatus(ifi.Cond, vj, d, m, si)
+					}
+				}
+			}
+		}
+		for _, dblk := range fn.Blocks {
+			ifi, ok := dblk.Instrs[len(dblk.Instrs)-1].(*ssa.If)
+			if !ok || dblk == blk || !dblk.Dominates(blk) {
+				continue
+			}
+			for si, s := range dblk.Succs {
+				if len(s.Preds) == 1 && (s == blk || s.Dominates(blk)) {
+					m = refineStatus(ifi.Cond, vj, d, m, si)
+				}
+			}
+		}
+		if m == want {
+			return true
+		}
+	}
+	return false
 }
